@@ -20,7 +20,8 @@ import (
 
 const (
 	kindList = "list"
-	kindAcct = "acct"
+	kindAcct = "acct" // a number; the accounts' sum is invariant
+	kindReg  = "reg"  // a number written blindly (no prior read); every written value is a unique write id
 )
 
 type Cell struct {
@@ -100,7 +101,7 @@ func ownerCtx(id int32) int { return int(id >> 26) }
 
 func (h *History) val(a Access) string {
 	c := h.Cells[a.C]
-	if c.Kind == kindAcct {
+	if c.Kind != kindList {
 		return fmt.Sprint(a.N)
 	}
 	if a.P >= 0 {
@@ -120,7 +121,7 @@ func tailIDs(l []int32, n int) []int32 {
 }
 
 func sameVal(k string, a, b Access) bool {
-	if k == kindAcct {
+	if k != kindList {
 		return a.N == b.N
 	}
 	if a.P >= 0 || b.P >= 0 {
@@ -248,8 +249,8 @@ func CheckHistory(h *History) ([]Violation, OracleStats) {
 		if s != nil {
 			w["section"] = secBrief(h, s)
 		}
-		add("C07:divergent-versions", fmt.Sprintf("%s: %s observed a value of %s that is not a prefix of the longest version (they agree on %d elements, then differ): an append was lost or overwritten",
-			where, "a committed section/observer", h.cellName(a.C), cp), w)
+		add("C07:divergent-versions", fmt.Sprintf("%s holds/observed a value of %s that is not a prefix of the longest version (they agree on %d elements, then differ): an append was lost or overwritten",
+			where, h.cellName(a.C), cp), w)
 	}
 	for i := range h.Secs {
 		for _, a := range h.Secs[i].Acc {
@@ -302,6 +303,32 @@ func CheckHistory(h *History) ([]Violation, OracleStats) {
 					map[string]any{"oracle": "visibility", "cell": h.cellName(ci), "id": id})
 			}
 		}
+	}
+	regSeen := func(a Access, where string, s *Sec) {
+		if h.Cells[a.C].Kind != kindReg || a.N == 0 {
+			return
+		}
+		if _, ok := byUID[owner(a.N)]; ok {
+			return
+		}
+		w := map[string]any{"oracle": "visibility", "cell": h.cellName(a.C), "id": a.N, "where": where}
+		if s != nil {
+			w["section"] = secBrief(h, s)
+		}
+		if kind, ok := aborted[owner(a.N)]; ok {
+			w["abort_kind"] = kind
+			add("C07:aborted-write-visible", fmt.Sprintf("%s saw %s = %d, written by an attempt of ctx %d that aborted (%s)", where, h.cellName(a.C), a.N, ownerCtx(a.N), kind), w)
+		} else if h.Complete {
+			add("C07:uncommitted-write-visible", fmt.Sprintf("%s saw %s = %d, written by an attempt of ctx %d that neither committed nor aborted", where, h.cellName(a.C), a.N, ownerCtx(a.N)), w)
+		}
+	}
+	for i := range h.Secs {
+		for _, a := range extReads[i] {
+			regSeen(a, "a committed section", &h.Secs[i])
+		}
+	}
+	for _, a := range h.Final {
+		regSeen(a, "the final state", nil)
 	}
 	if h.Final != nil {
 		for i := range h.Secs {
@@ -425,7 +452,7 @@ func replay(h *History, extReads []map[int]Access, st *OracleStats, add func(str
 		var sb strings.Builder
 		for _, c := range h.MgrCells[m] {
 			a := cur[c]
-			if h.Cells[c].Kind == kindAcct {
+			if h.Cells[c].Kind != kindList {
 				fmt.Fprintf(&sb, "n%d;", a.N)
 			} else if a.P >= 0 {
 				fmt.Fprintf(&sb, "p%d;", a.P)
@@ -457,6 +484,9 @@ func replay(h *History, extReads []map[int]Access, st *OracleStats, add func(str
 				continue
 			}
 			class := "acct-mismatch"
+			if k == kindReg {
+				class = "register-mismatch"
+			}
 			if k == kindList {
 				switch {
 				case a.P >= 0 && cur[c].P >= 0 && a.P < cur[c].P:
@@ -491,7 +521,7 @@ func replay(h *History, extReads []map[int]Access, st *OracleStats, add func(str
 	for _, sm := range h.Samples {
 		var sb strings.Builder
 		for _, a := range sm.Cells {
-			if h.Cells[a.C].Kind == kindAcct {
+			if h.Cells[a.C].Kind != kindList {
 				fmt.Fprintf(&sb, "n%d;", a.N)
 			} else if a.P >= 0 {
 				fmt.Fprintf(&sb, "p%d;", a.P)
@@ -592,6 +622,18 @@ func checkGraph(h *History, byUID map[int32]int, extReads []map[int]Access, st *
 			// rw: the next writer after the version read
 			if w := nextWriter[a.P]; w >= 0 {
 				addEdge(i, w, "rw", ci)
+			}
+		}
+	}
+	for ci, c := range h.Cells {
+		if c.Kind != kindReg {
+			continue
+		}
+		for i := range h.Secs {
+			if a, ok := extReads[i][ci]; ok && a.N != 0 {
+				if o, ok := byUID[owner(a.N)]; ok {
+					addEdge(o, i, "wr", ci)
+				}
 			}
 		}
 	}
